@@ -29,7 +29,8 @@ from lib import core
 from lib.core import exc_name
 
 ID = "C19"
-AUDIT_IMPORTS = ["HypatiaProofs.Properties.C19", "HypatiaProofs.Properties.C19Index"]
+AUDIT_IMPORTS = ["HypatiaProofs.Properties.C19", "HypatiaProofs.Properties.C19Index",
+                 "HypatiaProofs.Properties.C19Text"]
 THEOREMS = ["Hyp.Concurrency." + t for t in (
     "c19_conflict_no_trace", "c19_both_visible_serial", "c19_mergeKey_cases", "c19_merge_is_serial",
     "c19_length_merge", "c19_write_skew_needs_rw")] + ["Hyp.CIdx." + t for t in (
@@ -37,7 +38,11 @@ THEOREMS = ["Hyp.Concurrency." + t for t in (
     "c19_field_merged_observes_serial", "c19_d20_unrepaired_loses_update", "c19_d20_repaired_conflicts",
     "c19_replacement_conflicts", "c19_keyword_no_orphan_merge", "c19_keyword_init", "c19_keyword_txn_refines",
     "c19_keyword_conflict_or_serial", "c19_keyword_serial_refines", "c19_keyword_merged_observes_serial",
-    "c19_field_reachable_base", "c19_keyword_reachable_base")]
+    "c19_field_reachable_base", "c19_keyword_reachable_base",
+    # text index at object level (Properties/C19Text.lean)
+    "c19_text_first_new_wid", "c19_text_new_words_conflict", "c19_text_wordinfo_key_conflict",
+    "c19_text_dict_posting_conflict", "c19_text_cutoff_switch_conflict", "c19_text_tree_posting_merges",
+    "reach_run", "tsound_of_reach", "lextrack_of_reach")]
 CASES = {"quick": 640, "thorough": 12000}
 BUDGET_S = {"quick": 50, "thorough": 800}
 BATCH = 10
